@@ -20,7 +20,7 @@ class Obs:
     pass
 
 
-def process_step(S, *, policy_kind=None, with_result=False, ttl=False, explicit_retry=False):
+def process_step(S, *, policy_kind=None, with_result=False, ttl=False, explicit_retry=False, eager_reschedule=False):
     import repid.data._parameters as P
     from repid import Connection, InMemoryBucketBroker, InMemoryMessageBroker
     from repid._processor import _Processor
@@ -109,6 +109,11 @@ def process_step(S, *, policy_kind=None, with_result=False, ttl=False, explicit_
         # refused (ValueError inside the actor), i.e. an ordinary failed execution
         from harness.actors import explicit_retry_fn
         fn = explicit_retry_fn(o.runs, fail)
+    o.eager_reschedule = bool(eager_reschedule and recurring and not o.explicit_retry and S.flag("actor_reschedules_itself_with_a_failing_callback"))
+    if o.eager_reschedule:
+        from harness.actors import eager_reschedule_fn
+        fn = eager_reschedule_fn(o.runs)
+        o.fail = fail = False         # the iteration completes (by the actor's own reschedule)
     actor = mk_actor(fn, retry_policy=policy)
 
     o.delta = delta = S.int("listen_after", 0, HUNDRED_Y)
